@@ -10,7 +10,7 @@
 package actionlint
 
 //@ func (*RuleExpression).VisitJobPost
-//@   props C09 C02
+//@   props C09 C02 C05
 //@   anchor
 //@   ensures rule.matrixTy == nil && rule.stepsTy == nil && rule.needsTy == nil
 //@ func (*RuleExpression).VisitWorkflowPost
@@ -18,7 +18,7 @@ package actionlint
 //@   anchor
 //@   ensures rule.workflow == nil
 //@ func (*RuleExpression).VisitJobPre
-//@   props C09 C02
+//@   props C09 C02 C05
 //@   anchor
 //@   ensures rule.stepsTy != nil && fresh(rule.stepsTy) && rule.needsTy != nil && fresh(rule.needsTy)
 //@   ensures (n.Strategy == nil || n.Strategy.Matrix == nil) ==> rule.matrixTy == old(rule.matrixTy)
